@@ -129,14 +129,14 @@ def inputs(ctx):
         yield "clean", make_case(rng, f, **spelling(rng))
 
     # ---- the same data name under different parents (legal: qualified names), REDEFINES inside the later groups
-    for i in range(400 * scale):
+    for i in range(300 * scale):
         f = G.gen_forest(rng, max_depth=rng.choice([3, 4, 5]), max_children=rng.choice([2, 3, 5]), records=rng.choice([1, 1, 2]),
                          budget=rng.choice([15, 40, 80]), p_filler=0.05, p_redefines=rng.choice([0.2, 0.4, 0.6]),
                          p_occurs=rng.choice([0, 0.15]), p_88=0.05, p_66=0.05, p_77=0.05)
         G.repeat_names(rng, f, p=rng.choice([0.2, 0.4, 0.7]))
         yield "dup_cousins", make_case(rng, f, **spelling(rng))
     # ---- any earlier name reused, also an ancestor's or a sibling's (the maker's names dict gets confused: modelled)
-    for i in range(300 * scale):
+    for i in range(200 * scale):
         f = G.gen_forest(rng, max_depth=rng.choice([3, 4, 5]), max_children=rng.choice([2, 3, 5]), records=1,
                          budget=rng.choice([10, 25, 50]), p_filler=0.05, p_redefines=rng.choice([0.3, 0.6]),
                          p_occurs=rng.choice([0, 0.2]), p_88=0.05, p_66=0, p_77=0)
@@ -153,12 +153,12 @@ def inputs(ctx):
             k[0] += 1
             return f"{rng.choice(G.STEMS)}-{k[0]}"
         return f
-    for i in range(500 * scale):
+    for i in range(400 * scale):
         f = flat_forest(rng, rng.randint(1, 14), rng.choice(lvsets), uniq_names(), p_redef=rng.choice([0, 0.1, 0.3]))
         yield "wild_unique", make_case(rng, f, **spelling(rng))
 
     # ---- arbitrary level sequences, colliding names (REDEFINES with zero / one / several matches)
-    for i in range(500 * scale):
+    for i in range(400 * scale):
         pool = rng.sample(G.STEMS, rng.randint(1, 4))
         f = flat_forest(rng, rng.randint(1, 12), rng.choice(lvsets), lambda: rng.choice(pool), p_redef=rng.choice([0.2, 0.5]),
                         p_filler=rng.choice([0.1, 0.4]))
